@@ -61,6 +61,14 @@ fn check_case(case: &Value, stats: &mut Stats) -> CheckResult {
     }
 }
 
+fn pair_check(case: &Value, stats: &mut Stats) -> CheckResult {
+    run_pair(case, stats, check_case)
+}
+
+fn pair_driver(ctx: &RunCtx, stats: &mut Stats, rep: &mut Reporter) {
+    half_key_driver("C16", pair_check, ctx, stats, rep)
+}
+
 pub fn property() -> Property {
     Property {
         id: "C16",
@@ -76,6 +84,16 @@ pub fn property() -> Property {
             required: &["in_check", "double_check", "pawn_attacker", "distant_line_attacker"],
             regressions: &[],
             exhaustive: false,
-        }],
+        },
+            SubCheck {
+                name: "half_key_pairs",
+                driver: Driver::Custom { run: pair_driver },
+                check: pair_check,
+                configs: Configs::ReleaseOnly,
+                required: &["equal_low_half_of_the_key", "equal_high_half_of_the_key"],
+                regressions: &[],
+                exhaustive: false,
+            },
+        ],
     }
 }
